@@ -459,11 +459,13 @@ EMBEDDED_KEYS = ["old_locus_tag", "evidence", "grandparent_assembly", "my_produc
                  "subfeature_typex", "byproducts", "hostname", "midpoint", "unnamed", "alt_transcript_names", "my_gene_symbolic"]
 
 
+# keys that START with an identifier word without being one (a prefix match on the identifier list would swallow them)
+PREFIXED_KEYS = ["identity", "name_source", "product_note", "gene_id_old", "parental_line", "names", "locus_tagged", "idx"]
+
+
 def embedded_keys():
-    keys = ["x_" + w for w in IDENTIFIER_WORDS] + EMBEDDED_KEYS
-    # a key that STARTS with an identifier word is dropped by the unchanged parser (prefix match); that is outside the statement
-    assert not any(k.startswith(w) for k in keys for w in IDENTIFIER_WORDS), "embedded key starts with an identifier word"
-    return keys
+    keys = ["x_" + w for w in IDENTIFIER_WORDS] + EMBEDDED_KEYS + [w + "_x" for w in IDENTIFIER_WORDS] + PREFIXED_KEYS
+    return [k for k in keys if k not in IDENTIFIER_WORDS]
 
 
 def fam_embedded():
@@ -511,7 +513,7 @@ def world(tier):
 
 def describe(tier):
     tail = ("shared: the same qualifier key on gene and transcript(s) / feature collection and feature with all pairs of value sets of size "
-            "1-2; embedded: 36 realistic keys containing (not starting with) an identifier word, on gene / transcript / both; " + ("long: 10-12 CDS blocks, 5 exon-length patterns, both strands, start frames 0-2; trunc: layouts N=5 k<=2 x every "
+            "1-2; embedded: 66 realistic keys containing / starting with / ending in an identifier word (without being one), on gene / transcript / both; " + ("long: 10-12 CDS blocks, 5 exon-length patterns, both strands, start frames 0-2; trunc: layouts N=5 k<=2 x every "
                        "3'-truncating chunk window (leg 1: rows and phase); " if tier == "quick" else
                        "long: 10-12 CDS blocks, all 39 exon-length patterns of period <=3, 3 CDS placements, both strands, start frames 0-2; "
                        "trunc: layouts N=7 k<=3 x every 3'-truncating chunk window (leg 1: rows and phase); ") +
